@@ -281,6 +281,8 @@ pub struct Memory<const D: usize> {
     /// scale of the workload (spacing of the dyadic grid used for new points)
     pub grid: f64,
     pub extent: f64,
+    /// scripted operations that `run_history` plays (front first) before generating random ones
+    pub script: Vec<Op<D>>,
 }
 
 /// Relative weights of operation classes.
@@ -559,7 +561,7 @@ where
     let mut pre = RefModel::from_dt(dt);
     let mut pre_cfg = config_of(dt);
     for index in 0..len {
-        let op = next_op(rng, &pre, mem, mix);
+        let op = if mem.script.is_empty() { next_op(rng, &pre, mem, mix) } else { mem.script.remove(0) };
         let t0 = std::time::Instant::now();
         let res = apply(dt, &op);
         let ms = t0.elapsed().as_millis() as u64;
@@ -602,4 +604,42 @@ where
         pre_cfg = post_cfg;
     }
     log
+}
+
+/// Scripted prefix for histories that start from an empty triangulation: D affinely independent
+/// grid points followed by 1-2 points that are exact affine combinations of them (collinear /
+/// coplanar bootstrap prefix), so that the insertion completing the initial simplex is degenerate.
+pub fn degenerate_bootstrap_script<const D: usize>(rng: &mut Rng, mem: &Memory<D>) -> Vec<Op<D>> {
+    let mut pts: Vec<[f64; D]> = Vec::new();
+    // e_0 .. e_{D-1} scaled, shifted by a random grid offset: D points spanning a hyperplane
+    let s = mem.grid * 4.0;
+    let mut off = [0.0; D];
+    for x in off.iter_mut() {
+        *x = rng.range_i64(0, 3) as f64 * mem.grid;
+    }
+    for i in 0..D {
+        let mut p = off;
+        p[i] += s;
+        pts.push(p);
+    }
+    // affine combinations with weights summing to 1 (exact for these dyadic values)
+    let a = rng.usize(D);
+    let mut b = rng.usize(D);
+    if b == a {
+        b = (a + 1) % D;
+    }
+    let mut mid = [0.0; D];
+    let mut ext = [0.0; D];
+    for j in 0..D {
+        mid[j] = (pts[a][j] + pts[b][j]) / 2.0;
+        ext[j] = 2.0 * pts[a][j] - pts[b][j];
+    }
+    pts.push(if rng.bool() { mid } else { ext });
+    if rng.bool() {
+        pts.push(if rng.bool() { mid } else { ext });
+    }
+    pts.into_iter()
+        .enumerate()
+        .map(|(i, p)| if i % 2 == 0 { Op::Insert { p, uuid: rng.uuid(), data: Some(i as i64), how: "degenerate-bootstrap" } } else { Op::InsertStats { p, uuid: rng.uuid(), data: None, how: "degenerate-bootstrap" } })
+        .collect()
 }
